@@ -124,7 +124,7 @@ def main(tier, seed, jobs):
     print(f"selftest: specs={len(specs)} x (2 runs same pool + 1 fresh pool/other worker count + 1 real executor); "
           f"diverged={n_div} fine_schedule_drift={n_drift} fidelity_mismatch={n_fid} scheduling_steps={steps} wall={time.time() - t0:.1f}s")
     os.makedirs(os.path.join(VERIF, "evidence"), exist_ok=True)
-    with open(os.path.join(VERIF, "evidence", "selftest.json"), "w") as f:
+    with open(os.path.join(VERIF, "selftest_report.json"), "w") as f:
         json.dump({"specs": len(specs), "diverged": n_div, "fine_schedule_drift": n_drift, "fidelity_mismatch": n_fid, "ok": ok, "tier": tier, "seed": seed,
                    "wall_s": round(time.time() - t0, 1)}, f)
     return 0 if ok else 3
